@@ -64,7 +64,7 @@ structure Step where
   rcv : String
 
 def steps : P (List Step) := counted fun
-  | t :: r => match t.splitOn ":" with
+  | t :: r => match t.splitOn "/" with
     | [k, by', sz, s, rc] =>
       let sizes := if sz == "-" then some [] else (sz.splitOn ",").mapM String.toNat?
       sizes.map fun z => (⟨k, by' == "c", z, s, rc⟩, r)
